@@ -66,10 +66,14 @@ def tasks(tier):
     # "in the documented order, over the same neighbours" is C03's contract:
     # its obligations are re-checked here (dep.*) so that a change to the
     # shared code generation that breaks this property fails this check too
-    return ['symbols', 'set_kernel', 'closure', 'wiring', 'wrapper', 'canary',
+    return ['symbols', 'set_kernel', 'closure', 'wiring', 'wrapper', 'objects',
+            'canary',
             'dep:skeleton',
             'dep:range', 'dep:determinism', 'dep:group_calls', 'dep:carry',
-            'dep:bounded']
+            'dep:bounded', 'dep:forward',
+            # which arrays are bound per source/destination comes from
+            # get_arrays_used_in_equation / Group.get_array_names (C20)
+            'dep:C20:group_names']
 
 
 def blocks(repo):
@@ -246,6 +250,9 @@ def replay_symbols(model, ob):
 
 def run_task(task, ctx):
     repo = Repo()
+    if task.startswith('dep:C'):
+        from contracts import deps
+        return deps.run_dep(task, ctx)
     if task.startswith('dep:'):
         from contracts import C03
         n0, b0 = len(ctx.results), len(ctx.bounded)
@@ -265,6 +272,8 @@ def run_task(task, ctx):
         return task_wiring(ctx, repo)
     if task == 'wrapper':
         return task_wrapper(ctx, repo)
+    if task == 'objects':
+        return task_objects(ctx, repo)
     if task == 'canary':
         x = z3.Real('cx')
         ctx.canary('canary.must_fail', Obligation('c', [], WF(x, x, x, x, x)
@@ -649,6 +658,90 @@ def task_wrapper(ctx, repo):
         ctx.outside('wrapper', str(e))
         return
     ctx.prove('wrapper.arrays_and_constants_are_rebound', obs)
+
+
+# ------------------------------------------------- compiled equation objects
+def task_objects(ctx, repo):
+    """Each user equation becomes one compiled object: get_equation_wrappers
+    gives the k-th instance of a class the name <class_in_snake_case><k>
+    (distinct for distinct instances, also of one class); get_equation_defs
+    declares one attribute of the equation's class per instance under that
+    name; get_equation_init builds the attribute from the attributes of THAT
+    instance: `self.<var_name> = <Class>(**equations[i].__dict__)` with i the
+    position of the instance in the list the evaluator is given."""
+    m = repo.module(EQ)
+    W = m.path
+    cls = 'CythonGroup'
+    obs = []
+
+    def eqn(i, cname):
+        o = SymObject(None, dict(name=cname, var_name=None), 'eq%d' % i)
+        o.attrs['__class__'] = SymObject(None, dict(__name__=cname), 'cls')
+        return o
+    names = ['TaitEOS', 'MomentumEquation', 'TaitEOS', 'TaitEOS']
+    eqs = [eqn(i, n) for i, n in enumerate(names)]
+    want_var = ['tait_eos0', 'momentum_equation0', 'tait_eos1', 'tait_eos2']
+    try:
+        # var names
+        fw = m.methods(cls)['get_equation_wrappers']
+        parsed = []
+        gen = SymObject(None, dict(
+            parse=Native(lambda e, s_, a, k, n: parsed.append(a[0])),
+            get_code=Native(lambda e, s_, a, k, n: 'CODE')), 'code_gen')
+        obj = SymObject(cls, dict(equations=eqs, pre_comp={}), 'self')
+        obj.module = m.name
+        import re as _re
+
+        def camel(e, s_, a, k, n):
+            # the two re.sub calls of camel_to_underscore, run on the
+            # concrete class name (regular expressions are not modelled)
+            f_ = m.functions['camel_to_underscore']
+            src_ = ast.unparse(f_)
+            env_ = {'re': _re}
+            exec(src_, env_)
+            return env_['camel_to_underscore'](a[0])
+        ex = Executor(repo, m, qualname=cls + '.get_equation_wrappers',
+                      merge=False,
+                      externals={
+                          'camel_to_underscore': camel,
+                          'defaultdict': lambda e, s_, a, k, n: _ZeroDict(),
+                          'get_predefined_types': lambda e, s_, a, k, n: {},
+                          'CythonGenerator': lambda e, s_, a, k, n: gen})
+        outs = ex.exec_function(fw, dict(self=obj, known_types={}))
+        ctx.function(m, fw, cls + '.get_equation_wrappers', ex.dropped)
+        got = [e_.attrs.get('var_name') for e_ in eqs]
+        obs.append(Obligation('objects.var_names_are_distinct_per_instance',
+                              [], z3.BoolVal(len(outs) == 1 and got ==
+                                             want_var), W,
+                              extra=dict(var_names=str(got))))
+        for e_, v_ in zip(eqs, want_var):
+            e_.attrs['var_name'] = v_
+        for fname, want in (
+                ('get_equation_defs', ['cdef public %s %s' % (n, v)
+                                       for n, v in zip(names, want_var)]),
+                ('get_equation_init', [
+                    'self.%s = %s(**equations[%d].__dict__)' % (v, n, i)
+                    for i, (n, v) in enumerate(zip(names, want_var))])):
+            f = m.methods(cls)[fname]
+            obj = SymObject(cls, dict(equations=eqs), 'self')
+            obj.module = m.name
+            ex = Executor(repo, m, qualname=cls + '.' + fname, merge=False)
+            outs = ex.exec_function(f, dict(self=obj))
+            ctx.function(m, f, cls + '.' + fname, ex.dropped)
+            got = outs[0].value.split('\n') if len(outs) == 1 and \
+                isinstance(outs[0].value, str) else None
+            obs.append(Obligation('objects.%s' % fname, [],
+                                  z3.BoolVal(got == want), W,
+                                  extra=dict(emitted=str(got)[:400])))
+    except VCError as e:
+        ctx.outside('objects', str(e))
+        return
+    ctx.prove('objects.one_compiled_object_per_equation_instance', obs)
+
+
+class _ZeroDict(dict):
+    def __missing__(self, k):
+        return 0
 
 
 def replay_wiring(model, ob):
